@@ -3,7 +3,7 @@ import re
 
 import z3
 
-from pyvc.core import (Contract, Loop, PInt, PBool, PConst, PObj, POptions, PIntTuple, PDerived, Obj, SeqV, Tup, FnV,
+from pyvc.core import (Contract, Loop, PInt, PBool, PConst, PObj, POptions, PIntTuple, PDerived, POneOf, Obj, SeqV, Tup, FnV,
                        class_consts, module_int_consts)
 
 F = 'pyasn1/codec/cer/encoder.py'
@@ -105,3 +105,34 @@ CER_SEQOF = Contract(
          'altogether is decided one level up (AbstractItemEncoder.encode, ifNotEmpty: recorded finding '
          'KF-empty-optional-of-omitted)')
 CONTRACTS = CONTRACTS + [CER_SEQOF]
+
+
+# ---- DER: a SET member that is an untagged CHOICE is placed by the tag actually encoded (X.690 10.3) ----------------------
+def _der_component(ex, env):
+    """an element with tags, wrapped in `depth` untagged CHOICEs (each holding the next as its chosen alternative)"""
+    depth = env['depth']
+    inner_ts = Obj('TagSet', {'__truthy__': True}, name='innerTagSet')
+    obj = Obj('Element', {'typeId': 'other-type-id', 'tagSet': inner_ts}, name='chosenLeaf')
+    if env['leaf_is_tagged_choice']:
+        obj = Obj('Choice', {'typeId': 'choice-type-id', 'tagSet': inner_ts}, {'getComponent': lambda ex2, self: None},
+                  name='taggedChoice')
+    for i in range(depth):
+        nxt = obj
+        obj = Obj('Choice', {'typeId': 'choice-type-id', 'tagSet': Obj('TagSet', {'__truthy__': False}, name='untagged')},
+                  {'getComponent': (lambda n: (lambda ex2, self: n))(nxt)}, name='untaggedChoice%d' % i)
+    env['_inner_ts'] = inner_ts
+    return Tup([obj, None])
+
+
+DER_SORT_KEY = Contract(
+    id='der.encoder::SetEncoder._componentSortKey[value-object]', file='pyasn1/codec/der/encoder.py',
+    qual='SetEncoder._componentSortKey', properties=['C03', 'C02', 'C04'],
+    params=dict(depth=POneOf(0, 1, 2, 3), leaf_is_tagged_choice=POneOf(False, True), componentAndType=PDerived(_der_component),
+                inner=PDerived(lambda ex, env: env['_inner_ts'])),
+    globals={'univ': {'Choice': {'typeId': 'choice-type-id'}, '__name__': 'univ'},
+             'SetEncoder': {'_tagSortKey': FnV(lambda ex, ts: Obj('Key', {'of': ts}, name='key'), 'SetEncoder._tagSortKey'),
+                            '__name__': 'SetEncoder'}},
+    ensures=[('key-of-the-alternative-actually-encoded', 'result.of is inner')],
+    note='however deeply the untagged CHOICEs nest, the key is taken from the tags that go on the wire; a *tagged* CHOICE '
+         'is placed by its own tags (cer.encoder::SetEncoder._tagSortKey turns the tag set into (class, number))')
+CONTRACTS = CONTRACTS + [DER_SORT_KEY]
